@@ -29,7 +29,12 @@
 (*   body         class of the body bytes: list wszero (decodable listing, *)
 (*                `items` items) | empty trunc garbage wserr rand ...      *)
 (*   blen, bcont  length of the body and the content its bytes are         *)
-(*   bend         how the body stream ends: eof | cut (a read error)       *)
+(*   bend         how the body stream ends: eof | cut (a read error) |     *)
+(*                trunc: the response travels framed by HTTP/1.1 and the   *)
+(*                connection closes after the body bytes - which the       *)
+(*                client's transport reports as an unexpected end of the   *)
+(*                stream (an error) iff fewer bytes than the announced     *)
+(*                Content-Length arrived, and as a clean end otherwise     *)
 (*   items        number of list entries in a decodable listing body       *)
 (*                                                                         *)
 (* Deviation parameters (the values on the right are the code's):          *)
@@ -48,7 +53,8 @@ CONSTANTS DefaultN,        \* ociclient.DefaultListPageSize
           ErrLimit,        \* error bodies are read up to this many bytes (+1)
           DefaultChunk,    \* chunk size used for a hint <= 0
           MaxAlloc,        \* largest slice capacity that can be allocated
-          PageSizeRule, GuardLocation, GuardAlloc
+          PageSizeRule, GuardLocation, GuardAlloc,
+          StrictRangeTooLong   \* see ReadAll: must a range read fail whenever more than the whole blob arrives?
 
 VARIABLES ps,      \* configuration: Options.ListPageSize
           pc,      \* "idle" | "req" | "done" | "panic"
@@ -74,10 +80,11 @@ Min(a, b) == IF a < b THEN a ELSE b
 FL0 == [on |-> FALSE, from |-> 0, open |-> FALSE]
 M0 == [step |-> "", net |-> FALSE,
        got |-> 0, lastk |-> -2, linkk |-> 0, len |-> 0, lock |-> 0, lform |-> "", lhost |-> "same",
-       fcl |-> 0, fblen |-> 0, fbcont |-> "", fbend |-> "", errpath |-> FALSE]
+       fblen |-> 0, fbcont |-> "", fbend |-> "", facl |-> -1, fframed |-> FALSE, errpath |-> FALSE]
 W0 == [open |-> FALSE, lock |-> 0, lform |-> "", lhost |-> "same", chunk |-> 0, flushed |-> 0, size |-> 0, csize |-> 0,
        nilchunk |-> FALSE, closed |-> FALSE, cerr |-> FALSE]
-RD0 == [open |-> FALSE, verify |-> FALSE, alg |-> "", cont |-> "", size |-> 0, blen |-> 0, bcont |-> "", bend |-> ""]
+RD0 == [open |-> FALSE, verify |-> FALSE, alg |-> "", cont |-> "", size |-> 0, blen |-> 0, bcont |-> "", bend |-> "",
+        acl |-> -1, framed |-> FALSE]   \* framed: the body came framed by HTTP/1.1, announced with Content-Length acl (-1: none)
 \* outcome constraint: ok; nlo <= n <= nhi; when ok also the descriptor (alg, cont, size)
 O(ok, nlo, nhi, alg, cont, size) == [ok |-> ok, nlo |-> nlo, nhi |-> nhi, alg |-> alg, cont |-> cont, size |-> size]
 OErr == O(FALSE, 0, 0, "", "", 0)
@@ -90,6 +97,10 @@ C0 == [name |-> "", ref |-> "", o0 |-> 0, o1 |-> 0, take |-> 0, start |-> FALSE,
 ZeroBodies == {"wszero", "errjson", "wsjson", "huge"}
 Decodable(r) == r.body = "list" \/ r.body \in ZeroBodies
 ItemsOf(r) == IF r.body = "list" THEN r.items ELSE 0
+
+\* How the client's transport sees the body stream end.  (A framed body longer than its Content-Length
+\* would be cut to it by the transport; the scripts do not contain such responses.)
+End(r) == IF r.bend = "trunc" THEN (IF r.cl >= 0 /\ r.blen < r.cl THEN "cut" ELSE "eof") ELSE r.bend
 
 UsableLoc == {"path", "pathq", "pathfq", "url", "rel", "dup"}
 MissingLoc == {"none", "empty"}
@@ -209,9 +220,9 @@ Desc(r, needSize, needDigest, known) ==
       cont == IF r.dig = "ok" THEN r.hcont ELSE IF known THEN KnownCont ELSE ""
   IN [ok |-> sizeOK /\ digOK, alg |-> alg, cont |-> cont, size |-> size]
 
-OpenReader(verify, alg, cont, size, blen, bcont, bend) ==
+OpenReader(verify, alg, cont, size, blen, bcont, bend, acl, framed) ==
   /\ rd' = [open |-> TRUE, verify |-> verify, alg |-> alg, cont |-> cont, size |-> size,
-            blen |-> blen, bcont |-> bcont, bend |-> bend]
+            blen |-> blen, bcont |-> bcont, bend |-> bend, acl |-> acl, framed |-> framed]
   /\ Finish(O(TRUE, 0, 0, alg, cont, size))
 
 (* Location of an upload response (locationFromResponse): continue with Go(k, form) or fail *)
@@ -253,22 +264,22 @@ HandleOK(k, r, qhost) ==
     [] m.step = "read" ->
          LET d == Desc(r, TRUE, FALSE, c.ref = "digest") IN
          IF ~d.ok THEN Fail0
-         ELSE IF d.alg # "" THEN OpenReader(TRUE, d.alg, d.cont, d.size, r.blen, r.bcont, r.bend) /\ UNCHANGED <<w, m>>
+         ELSE IF d.alg # "" THEN OpenReader(TRUE, d.alg, d.cont, d.size, r.blen, r.bcont, End(r), r.cl, r.bend = "trunc") /\ UNCHANGED <<w, m>>
          ELSE IF d.size <= Threshold
          THEN \* read size+1 bytes at most and digest them
-              IF r.blen = d.size /\ r.bend = "eof"
-              THEN OpenReader(TRUE, "sha256", r.bcont, d.size, r.blen, r.bcont, "eof") /\ UNCHANGED <<w, m>>
+              IF r.blen = d.size /\ End(r) = "eof"
+              THEN OpenReader(TRUE, "sha256", r.bcont, d.size, r.blen, r.bcont, "eof", r.cl, r.bend = "trunc") /\ UNCHANGED <<w, m>>
               ELSE Fail0
-         ELSE /\ m' = [m EXCEPT !.step = "head2", !.fcl = r.cl, !.fblen = r.blen, !.fbcont = r.bcont, !.fbend = r.bend]
+         ELSE /\ m' = [m EXCEPT !.step = "head2", !.fblen = r.blen, !.fbcont = r.bcont, !.fbend = End(r), !.facl = r.cl, !.fframed = (r.bend = "trunc")]
               /\ pc' = "req" /\ UNCHANGED <<w, rd, out>>
     [] m.step = "head2" ->
          LET d == Desc(r, TRUE, TRUE, FALSE) IN
          IF ~d.ok THEN Fail0
-         ELSE OpenReader(TRUE, d.alg, d.cont, d.size, m.fblen, m.fbcont, m.fbend) /\ UNCHANGED <<w, m>>
+         ELSE OpenReader(TRUE, d.alg, d.cont, d.size, m.fblen, m.fbcont, m.fbend, m.facl, m.fframed) /\ UNCHANGED <<w, m>>
     [] m.step = "range" ->
          LET d == Desc(r, TRUE, FALSE, TRUE) IN
          IF ~d.ok THEN Fail0
-         ELSE OpenReader(FALSE, d.alg, d.cont, d.size, r.blen, r.bcont, r.bend) /\ UNCHANGED <<w, m>>
+         ELSE OpenReader(FALSE, d.alg, d.cont, d.size, r.blen, r.bcont, End(r), r.cl, r.bend = "trunc") /\ UNCHANGED <<w, m>>
     [] m.step = "delete" -> Finish(OOk) /\ UNCHANGED <<w, rd, m>>
     [] m.step = "pushman" -> Finish(O(TRUE, 0, 0, "sha256", KnownCont, c.csize)) /\ UNCHANGED <<w, rd, m>>
     [] m.step = "mount" ->
@@ -277,7 +288,7 @@ HandleOK(k, r, qhost) ==
          /\ IF r.code = 202 \/ ~d.ok THEN Finish(OErr) ELSE Finish(O(TRUE, 0, 0, d.alg, d.cont, 0))
     [] m.step = "referrers" ->
          /\ UNCHANGED <<w, rd, m>>
-         /\ IF r.bend # "eof" THEN Finish(OErr)
+         /\ IF End(r) # "eof" THEN Finish(OErr)
             ELSE IF Decodable(r)
             THEN LET n == IF c.take > 0 THEN Min(c.take, ItemsOf(r)) ELSE ItemsOf(r) IN Finish(O(TRUE, n, n, "", "", 0))
             ELSE IF r.body = "rand" THEN (Finish(OErr) \/ Finish(OOk))
@@ -321,7 +332,7 @@ HandleOK(k, r, qhost) ==
     [] m.step = "page" ->
          LET bad == Finish(O(FALSE, m.got, m.got, "", "", 0)) /\ UNCHANGED m IN
          /\ UNCHANGED <<w, rd>>
-         /\ IF r.bend # "eof" THEN bad
+         /\ IF End(r) # "eof" THEN bad
             ELSE IF Decodable(r) THEN Page(k, r, ItemsOf(r), qhost)
             ELSE IF r.body = "rand" THEN (bad \/ Page(k, r, 0, qhost))      \* arbitrary bytes: not decodable, or no entries
             ELSE bad
@@ -377,7 +388,15 @@ Begin(c) ==
             /\ m' = M0 /\ UNCHANGED w
             /\ rd' = [rd EXCEPT !.open = FALSE]
             /\ LET exceeds == rd.blen > rd.size /\ rd.blen >= 1 IN
-               IF exceeds THEN Finish(O(FALSE, Max(rd.size, 0) + 1, rd.blen, "", "", 0))   \* fails as soon as more than size has arrived
+               IF exceeds /\ rd.framed /\ ~rd.verify /\ rd.bend = "eof" /\ ~StrictRangeTooLong
+               THEN \* The reader compares the count with the size only on a read that returns no error.  A body framed
+                    \* by Content-Length hands over its last bytes together with io.EOF, and the unverified reader of
+                    \* a range read returns that EOF as it is: more bytes than the whole blob may then end cleanly.
+                    \* (Outside the property as read here: a slice cannot be checked against the whole blob's
+                    \* descriptor; only "too short against the announced length" is required of range reads.)
+                    \/ Finish(O(FALSE, Max(rd.size, 0) + 1, rd.blen, "", "", 0))
+                    \/ Finish(O(TRUE, rd.blen, rd.blen, "", rd.bcont, rd.blen))
+               ELSE IF exceeds THEN Finish(O(FALSE, Max(rd.size, 0) + 1, rd.blen, "", "", 0))   \* fails as soon as more than size has arrived
                ELSE IF rd.bend # "eof" THEN Finish(O(FALSE, rd.blen, rd.blen, "", "", 0))
                ELSE IF rd.verify /\ (rd.blen # rd.size \/ rd.bcont # rd.cont)
                THEN Finish(O(FALSE, rd.blen, rd.blen, "", "", 0))
@@ -431,6 +450,12 @@ NoPanicState == pc # "panic"
 CorruptNeverCleanEOF ==
   (pc = "done" /\ call.name = "ReadAll" /\ out.ok /\ rd.verify) =>
       (rd.blen = rd.size /\ rd.bcont = rd.cont /\ rd.bend = "eof")
+
+\* ... and no read at all - a range read included, whose reader cannot verify the bytes - ends cleanly
+\* when the stream stopped before the length the response announced (too short)
+ShortNeverCleanEOF ==
+  (pc = "done" /\ call.name = "ReadAll" /\ out.ok) =>
+      (rd.bend = "eof" /\ ((rd.framed /\ rd.acl >= 0) => rd.blen >= rd.acl))
 
 \* no request after a transport failure: with a script of n responses an operation makes at most n+1 requests
 NoRequestAfterTransportError == m.net => pc # "req"
